@@ -10,7 +10,7 @@
 From Coq Require Import PrimFloat.
 From Coq Require Import Reals ZArith Bool List Lra Lia.
 From PR Require Import Base.Num Base.RNum Base.F64 Base.Slice Base.ListX Model.HashEq Gen.GenC12 Model.C12_slice
-     Proofs.C12_image Proofs.C12_memo Proofs.C12_eq Proofs.C12_getitem.
+     Proofs.C12_image Proofs.C12_memo Proofs.C12_eq Proofs.C12_getitem Proofs.C12_gen.
 Import ListNotations.
 Open Scope Z_scope.
 
@@ -54,13 +54,13 @@ Proof. vm_compute. reflexivity. Qed.
 (* swaths: list / numpy array / xarray over numpy of the same numbers *)
 Theorem C12_spelling_independent_swath :
   forall (D : Type) (H : list (tok R) -> D) k1 k2 nd (lon lat : list (list R)) n1 n2 n3 n4,
-  k1 <> 2 -> k2 <> 2 ->
+  named k1 = false -> named k2 = false ->
   let a := mk_swath k1 nd lon lat n1 n2 in let b := mk_swath k2 nd lon lat n3 n4 in
   H (swath_image a) = H (swath_image b) /\ swath_eq RO a b = true /\ swath_eq RO b a = true.
 Proof.
   intros D H k1 k2 nd lon lat n1 n2 n3 n4 H1 H2 a b. subst a b.
   rewrite (swath_image_container k1 k2 nd nd lon lat n1 n2 n3 n4 H1 H2).
-  split; [reflexivity | apply swath_eq_container; assumption].
+  split; [reflexivity | apply swath_eq_container; apply named_false_ne2; assumption].
 Qed.
 Print Assumptions C12_spelling_independent_swath.
 
@@ -225,7 +225,7 @@ Print Assumptions C12_distinct_crs.
 (* swaths (numpy / xarray over numpy): a coordinate beyond the tolerance *)
 Theorem C12_distinct_swath :
   forall (D : Type) (H : list (tok R) -> D), (forall x y, H x = H y -> x = y) ->
-  forall (a b : swath R) (x y : R), s_kind a <> 2 -> s_kind b <> 2 ->
+  forall (a b : swath R) (x y : R), named (s_kind a) = false -> named (s_kind b) = false ->
   length (concat (s_lon a)) = length (concat (s_lon b)) ->
   In (x, y) (combine (concat (s_lon a)) (concat (s_lon b))) ->
   (atol_swath RO + rtol_swath RO * Rabs y < Rabs (x - y))%R ->
@@ -233,7 +233,7 @@ Theorem C12_distinct_swath :
 Proof.
   intros D H Hinj a b x y Ha Hb Hl Hin Hfar. split.
   - apply (swath_eq_far_lon a b x y); try assumption.
-    destruct (Z.eqb_spec (s_kind a) 2); [contradiction | reflexivity].
+    destruct (Z.eqb_spec (s_kind a) 2) as [E|]; [exfalso; exact (named_false_ne2 _ Ha E) | reflexivity].
   - apply swath_distinct_np; try assumption. left. apply (combine_neq _ _ x y Hin). apply (swath_far_distinct x y Hfar).
 Qed.
 Print Assumptions C12_distinct_swath.
@@ -290,3 +290,87 @@ Print Assumptions C12_key_depends_on_geometries.
 Example C12_key_ex : key_image (area_image RO (mk_harea 1 2 3 (0, 0, 2, 3)%R (0, 0))) [TName 5; TName 6] 9 <>
                      key_image (area_image RO (mk_harea 1 2 3 (0, 0, 2, 3)%R (0, 0))) [TName 5; TName 6] 8.
 Proof. intros E. unfold key_image in E. rewrite !app_assoc in E. apply app_inj_tail in E. destruct E as [_ E]. discriminate. Qed.
+
+(* ------------------------------------------------------------------------------------------------
+   7. the methods themselves, regenerated from the source on every run (Gen/GenC12.v) *)
+
+(* BaseDefinition / SwathDefinition / AreaDefinition.__hash__: (object after the call, returned value) is the
+   model's memoising do_hash and its hash_of *)
+Theorem C12_gen_hash_is_memoised :
+  forall (C : Type) (dig : C -> Z) (o : obj C Z),
+  gen12_base_hash C dig o = (do_hash C Z dig o, Some (hash_of C Z dig o)) /\
+  gen12_swath_hash C dig o = (do_hash C Z dig o, Some (hash_of C Z dig o)) /\
+  gen12_area_hash C dig o = (do_hash C Z dig o, Some (hash_of C Z dig o)).
+Proof. intros. repeat split; [apply gen_base_hash_char | apply gen_swath_hash_char | apply gen_area_hash_char]. Qed.
+Print Assumptions C12_gen_hash_is_memoised.
+
+(* CoordinateDefinition.append: DimensionError, or the rows appended AND the memo reset *)
+Theorem C12_gen_append_resets_memo :
+  forall (T : Type) (self other : obj (swath T) Z),
+  gen12_coord_append self other =
+  if negb (s_ndim (coords self) =? s_ndim (coords other)) then None
+  else Some (mk_obj (swath_append (coords self) (coords other)) None).
+Proof. intros. apply gen_coord_append_char. Qed.
+Print Assumptions C12_gen_append_resets_memo.
+
+(* every history in which hash() and append() are the REGENERATED methods keeps the memo invariant *)
+Theorem C12_gen_memo_invariant :
+  forall (T : Type) (dig : swath T -> Z) (slc : swath T -> oslice * oslice * (Z * Z) -> swath T) (cpy : swath T -> swath T)
+         (ops : list (op (swath T) (oslice * oslice * (Z * Z)))) (s : swath T),
+  memo_ok (swath T) Z dig (fold_left (gstep dig slc cpy) ops (new_obj s)).
+Proof. intros. apply gen_memo_invariant. left. reflexivity. Qed.
+Print Assumptions C12_gen_memo_invariant.
+Example C12_gen_history_ex :
+  let s := mk_swath 0 2 [[1; 2]] [[3; 4]] 0 0 in
+  let o := fold_left (gstep (fun c => zlen (s_lon c)) (fun c _ => c) (fun c => c)) [OHash; OAppend s; OHash; OAppend s] (new_obj s) in
+  memo o = None /\ s_lon (coords o) = [[1; 2]; [1; 2]; [1; 2]].
+Proof. split; reflexivity. Qed.
+
+(* AreaDefinition.update_hash feeds exactly the model's byte image; hash_dict the json token *)
+Theorem C12_gen_update_hash_is_image :
+  forall (T : Type) (OP : ops T) (a : harea T) (h : hl T) (kw : Z),
+  gen12_area_update_hash OP a h = Some (hl_tokens h ++ area_image OP a) /\
+  gen12_hash_dict kw h = Some (hl_tokens h ++ [TJson kw]).
+Proof. intros. split; [apply gen_area_update_hash_char | apply gen_hash_dict_char]. Qed.
+Print Assumptions C12_gen_update_hash_is_image.
+
+(* hash_resampler_geometries and BaseResampler.get_hash digest the model's key image *)
+Theorem C12_gen_key_is_key_image :
+  forall (T : Type) (kw : Z) (src tgt : list (tok T)),
+  gen12_hash_resampler_geometries kw src tgt = key_image src tgt kw /\
+  (forall (r : resampler T) sarg targ, pick_geo sarg (r_src r) = Some src -> pick_geo targ (r_tgt r) = Some tgt ->
+     gen12_get_hash kw r sarg targ = key_image src tgt kw).
+Proof. intros. split; [apply gen_hash_resampler_geometries_char | intros; apply gen_get_hash_char; assumption]. Qed.
+Print Assumptions C12_gen_key_is_key_image.
+
+(* ------------------------------------------------------------------------------------------------
+   8. stacked areas with merging appends (C10's model of StackedAreaDefinition.append), and precomputed hashes *)
+From PR Require Model.Stack.
+(* the memo theorems hold for ANY append function: here C10's, which merges a member continuing the last one *)
+Example C12_memo_stacked_merging_ex :
+  forall (D : Type) (H : list (tok R) -> D) (dig : @Stack.stack R -> D)
+         (ops : list (op (@Stack.stack R) unit)) (s : @Stack.stack R),
+  let app := fun a b => match Stack.stack_append_all RO a (Stack.stack_defs b) with Some r => r | None => a end in
+  let o := run _ _ _ dig app (fun c _ => c) (fun c => c) ops (new_obj s) in
+  memo_ok _ _ dig o /\ hash_of _ _ dig o = hash_of _ _ dig (new_obj (coords o)).
+Proof. intros. split; [apply C12_memo_invariant | apply C12_hash_after_history]. Qed.
+
+(* == between stacks goes through get_lonlats (PROJ, an oracle ll): a stack equals every stack with the same
+   members, in particular the fresh stack built from the areas appended so far *)
+Theorem C12_stacked_eq_same_members :
+  forall (St : Type) (ll : St -> list (list R) * list (list R)) (s : St),
+  swath_eq RO (mk_swath 0 2 (fst (ll s)) (snd (ll s)) 0 0) (mk_swath 0 2 (fst (ll s)) (snd (ll s)) 0 0) = true.
+Proof. intros. apply swath_eq_refl. Qed.
+Print Assumptions C12_stacked_eq_same_members.
+
+(* a DataArray attrs['hash'] replaces the bytes in the digest and SURVIVES slicing: a slice keeps the digest of the
+   full swath although it is unequal to it -- known finding C12.distinct.hash_attr_survives_slice *)
+Theorem C12_hash_attr_slice_refuted :
+  exists (a : swath R) (key : oslice * oslice),
+  let b := swath_slice a key (s_nlon a, s_nlat a) in
+  swath_eq RO a b = false /\ swath_image a = swath_image b.
+Proof.
+  exists (mk_swath 3 2 [[0; 1]; [2; 3]]%R [[10; 11]; [12; 13]]%R 7 8), (mk_oslice (Some 0) (Some 1), mk_oslice None None).
+  split; [|reflexivity]. apply swath_eq_shape; reflexivity.
+Qed.
+Print Assumptions C12_hash_attr_slice_refuted.
